@@ -138,11 +138,23 @@ def mutation_sites(fa: FA):
     return out
 
 
-def flow_nodes(fa: FA, expr, at: int = None):
+def _walk_until(e, stop):
+    """ast.walk that yields a node for which `stop` holds but does not go below it."""
+    todo = [e]
+    while todo:
+        n = todo.pop()
+        yield n
+        if stop is not None and stop(n):
+            continue
+        todo.extend(ast.iter_child_nodes(n))
+
+
+def flow_nodes(fa: FA, expr, at: int = None, stop=None):
     """[(ast node, cfg node id)]: every expression node the value of `expr` (evaluated at `at`) may be computed
     from: its own sub-expressions and, through local names, the values of all reaching definitions (plain
     assignments, loop / unpack / with bindings) and what loops put into a container the name holds —
-    transitively.  Control dependencies (tests) are NOT part of the flow."""
+    transitively.  Control dependencies (tests) are NOT part of the flow.  With `stop`, the flow is not followed
+    below a node for which stop(node) holds (the node itself is reported): what reaches the value WITHOUT passing it."""
     if at is None:
         at = at_of(fa, expr)
     out = []
@@ -151,7 +163,7 @@ def flow_nodes(fa: FA, expr, at: int = None):
 
     def rec(e, at_):
         bound = _bound_names(e)
-        for n in ast.walk(e):
+        for n in (ast.walk(e) if stop is None else _walk_until(e, stop)):
             out.append((n, at_))
             if isinstance(n, ast.Name) and isinstance(n.ctx, ast.Load) and n.id not in bound and fa.df.is_local(n.id):
                 defs = fa.df.reaching(at_, n.id)
